@@ -25,13 +25,47 @@ def norm(node):
     return ast.unparse(node)
 
 
+class _SplitParallel(ast.NodeTransformer):
+    """`a, b = x, y` -> `a = x; b = y` when no target is read on the right-hand side (same behaviour: every right-hand expression
+    is evaluated from values the assignment does not change).  Done once at load time so that no rule has to know the form."""
+
+    def visit_Assign(self, n):
+        self.generic_visit(n)
+        if len(n.targets) == 1 and isinstance(n.targets[0], (ast.Tuple, ast.List)) and isinstance(n.value, (ast.Tuple, ast.List)) \
+                and len(n.targets[0].elts) == len(n.value.elts) and len(n.value.elts) > 1 \
+                and all(isinstance(t, (ast.Name, ast.Attribute)) for t in n.targets[0].elts) \
+                and not any(isinstance(v, ast.Starred) for v in n.value.elts):
+            ttxt = {ast.unparse(t) for t in n.targets[0].elts}
+            roots = {t.id for t in n.targets[0].elts if isinstance(t, ast.Name)}
+            for v in n.value.elts:
+                for x in ast.walk(v):
+                    if isinstance(x, (ast.Name, ast.Attribute)) and ast.unparse(x) in ttxt:
+                        return n
+                    if isinstance(x, ast.Name) and x.id in roots:
+                        return n
+                    if isinstance(x, ast.Call):
+                        return n          # a call could read or change a target: keep the parallel form
+            out = []
+            for t, v in zip(n.targets[0].elts, n.value.elts):
+                a = ast.Assign(targets=[t], value=v)
+                ast.copy_location(a, n)
+                ast.fix_missing_locations(a)
+                out.append(a)
+            return out
+        return n
+
+
+def _split_parallel_assignments(tree):
+    return _SplitParallel().visit(tree)
+
+
 class Module:
     def __init__(self, name, path, src, is_pkg):
         self.name = name
         self.path = path
         self.src = src
         self.is_pkg = is_pkg
-        self.tree = ast.parse(src, filename=path)
+        self.tree = _split_parallel_assignments(ast.parse(src, filename=path))
         self.names = {}       # local name -> ('mod', modname) | ('obj', modname, objname) | ('ext', dotted)
         self.stars = []       # modules star-imported
         self.classes = {}
